@@ -161,6 +161,8 @@ func init() {
 			// the derived file's path comes from the first listed user file: a package none of whose files is listed gets a path
 			// relative to the working directory (G10: every user file is listed, print-or-delete goes to (*pkg).Filename())
 			runG10(c.Repo, c.Rep)
+			// whether another pass is made must depend on this package only (the record of the pass before is a local)
+			g23BreakOnlyWithoutProgress(c.Repo, c.Rep)
 			g4PrintWrites(c.Repo, c.Rep)
 			g26DirectoryKnown(c.Repo, c.Rep)
 			g16PosOrder(c.Repo, c.Rep)
